@@ -42,7 +42,7 @@ TRUSTED = [
     'correspondence is differential testing: model = code only on the cases executed',
 ]
 ASSUMPTIONS = [
-    'safe=False; finite numbers in the state (NaN/Infinity are not JSON values); single-level classes; single-line docs; non-empty labels',
+    'schema(safe=True) is modelled as refusal (Dict, untyped List, Selector with non-literal objects) or the same schema; finite numbers in the state (NaN/Infinity are not JSON values); single-level classes; single-line docs; non-empty labels',
     'class_/item_type drawn from int, float, str, NoneType, bool, dict, list and flat tuples of them; Selector objects are scalars',
     'the object-level schema is used as the tests of param use it: {"type": "object", "properties": Cls.param.schema()}',
 ]
@@ -50,16 +50,18 @@ RULE = ('corpus + directed prefix (witness of every known finding; every schema 
         'exhaustive grid Integer/Number x lower bound {None,0,0.5} x upper bound {None,5,5.5} x inclusivity^2 x '
         'allow_None x boundary values with boundary probes + random classes of 1-5 parameters over the 15 types with '
         'values accepted by the real Parameter; a quarter of the instance-level cases edit the instance\'s own Parameter '
-        'objects (bounds / inclusive_bounds / allow_None) after construction and then assign values valid only under the '
-        'edit; obj.param.schema() (the class\'s for class-level cases) is compared structurally with the model, the '
-        'serialized state with the model, accept/reject of every numeric probe with the model; the Lean validator '
+        'objects (bounds / inclusive_bounds / allow_None / item_type) after construction and then assign values valid only under the '
+        'edit; another quarter inherit the declaration through a chain of 1-3 classes, use the leaf class, then edit the '
+        'Parameters of / assign plain values on one class of the chain; obj.param.schema() (the class\'s for class-level cases) is compared structurally with the model, the '
+        'result of schema(safe=True) (refusal or schema) with the model, the serialized state with the model, accept/reject of every numeric probe with the model; the Lean validator '
         'judges well-formedness, validation of the state, rejection of out-of-bounds probes. non-trivial = oracle '
         'applicable and (a non-None value of a non-name parameter or an out-of-bounds probe); distinct = distinct canonical case')
 COVERAGE_TARGETS = [f'{t}:value' for t in G.TYPES16] + [f'{t}:nullable' for t in G.TYPES16 if t not in ('Selector', 'ListSelector')] + \
                    [f'{t}:{lo}{hi}' for t in ('Integer', 'Number') for lo in ('lo-', 'lo[', 'lo(') for hi in ('hi-', 'hi]', 'hi)')] + \
                    ['Integer:nobounds', 'Range:lo[hi]', 'List:item_type', 'List:untyped', 'probe:out-of-bounds',
                     'Selector:none', 'ListSelector:none', 'level:class', 'level:instance',
-                    'instance-edits', 'edit:bounds', 'edit:inclusive_bounds', 'edit:allow_None']
+                    'safe:answers', 'safe:refuses', 'instance-edits', 'class-edits', 'inherit:depth=2', 'inherit:depth=3', 'edit:bounds', 'edit:inclusive_bounds',
+                    'edit:allow_None', 'edit:item_type', 'edit:default']
 
 NONE = {'t': 'none'}
 _XV = {}
@@ -129,13 +131,14 @@ def run_impl(case):
         types = {d['name']: d['type'] for d in case['params']}
         out = {'invalid': False}
         out['schema'] = _res(lambda: G.enc_fields(obj.param.schema(), {}))
+        out['schema_safe'] = _res(lambda: G.enc_fields(obj.param.schema(safe=True), {}))
         out['ser'] = _res(lambda: G.enc_fields(json.loads(obj.param.serialize_parameters()), types))
         out['allow_none'] = [[n, bool(obj.param[n].allow_None)] for n in names]
         probes = []
         if case['probes']:
             # probes go through the Parameter objects whose schema was taken: a fresh instance, or the
             # edited instance itself (its state has been recorded above)
-            inst = obj if case.get('edits') else cls()
+            inst = obj if (case.get('edits') and not case.get('inherit')) else cls()
             for n, v in case['probes']:
                 x = G.dec_tree(v)
                 try:
@@ -278,6 +281,26 @@ def directed():
     yield add_probes(dict(c, edits=[['p0', 'bounds', None]], final=[['p0', ev((-5, 50.5))]]))
     c = single({'type': 'Number', 'bounds': [ev(0), ev(10)], 'default': ev(1.5)}, ev(1.5))
     yield add_probes(dict(c, edits=[['p0', 'bounds', [ev(0), ev(100)]], ['p0', 'allow_None', True]], final=[]))
+    # the item type of an existing List Parameter re-assigned (instance's own Parameter, and the class's)
+    lst = {'type': 'List', 'item_type': 'int', 'min_len': 0, 'max_len': None, 'default': ev([1])}
+    c = single(lst, ev([1, 2]))
+    yield add_probes(dict(c, edits=[['p0', 'item_type', ['str', 'float']]], final=[['p0', ev(['a', 2.5])]]))
+    for depth, on in ((1, 0), (2, 0), (3, 1)):
+        c = single(lst, ev(['b']), level='class')
+        yield add_probes(dict(c, inherit={'depth': depth, 'on': on},
+                              edits=[['p0', 'item_type', 'str'], ['p0', 'default', ev(['a'])]], final=[]))
+    # inherited declarations: a plain value assigned on a class of the chain after the leaf class was used,
+    # then a constraint of that class's Parameter changed; observed on the leaf class and its instances
+    num = {'type': 'Number', 'bounds': [ev(0), ev(10)], 'default': ev(1.5)}
+    for depth, on in ((1, 0), (2, 0), (2, 1), (3, 0), (3, 1), (3, 2)):
+        c = single(num, ev(2.5), level='class')
+        yield add_probes(dict(c, inherit={'depth': depth, 'on': on},
+                              edits=[['p0', 'default', ev(7)], ['p0', 'bounds', [ev(0), ev(100)]], ['p0', 'default', ev(50)]], final=[]))
+        c = single(num, ev(2.5))
+        yield add_probes(dict(c, inherit={'depth': depth, 'on': on},
+                              edits=[['p0', 'default', ev(7)], ['p0', 'bounds', [ev(0), ev(100)]]], final=[['p0', ev(50)]]))
+    c = single({'type': 'String', 'default': ev('x')}, ev('x'), level='class')
+    yield add_probes(dict(c, inherit={'depth': 3, 'on': 1}, edits=[['p0', 'default', ev('zzz')], ['p0', 'allow_None', True]], final=[]))
 
 
 def cases(rng, tier, worker, nworkers):
@@ -304,6 +327,8 @@ def cases(rng, tier, worker, nworkers):
             c = G.gen_edits(rng, param, c)
         elif i % 8 == 2:
             c = G.gen_history(rng, c)
+        elif i % 4 == 3:
+            c = G.gen_inherit(rng, param, c)
         yield fin(add_probes(c, rng))
 
 
@@ -315,9 +340,15 @@ def tags(case, impl):
         t.append('invalid-state')
     if case.get('added') or case.get('replaced'):
         t.append('history:add_parameter')
-    if case.get('edits'):
+    if case.get('inherit'):
+        t.append('inherit:depth=%d' % case['inherit']['depth'])
+        t.append('class-edits')
+    elif case.get('edits'):
         t.append('instance-edits')
+    if case.get('edits'):
         t += ['edit:' + e[1] for e in case['edits']]
+    if isinstance(impl, dict) and 'schema_safe' in impl:
+        t.append('safe:' + ('answers' if 'ok' in impl['schema_safe'] else 'refuses'))
     if isinstance(impl, dict) and impl.get('js') is not None:
         t.append('jsonschema-cross-validated')
     return t
